@@ -165,8 +165,9 @@ func realGS(set string, z int, sub int64, x, y float64) GridSpec {
 	if err != nil {
 		ev.HarnessError("%v", err)
 	}
-	ax := ref.FloorDiv(grid.Quantise(x)-g.MinX, g.ResDeepest)
-	ay := ref.FloorDiv(grid.Quantise(y)-g.MinY, g.ResDeepest)
+	// aligned to 16 pixels so that the pixel borders of the four next coarser ids pass through the local origin
+	ax := ref.FloorDiv(grid.Quantise(x)-g.MinX, g.ResDeepest) &^ 15
+	ay := ref.FloorDiv(grid.Quantise(y)-g.MinY, g.ResDeepest) &^ 15
 	return GridSpec{Kind: "real", Set: set, Deepest: z, Sub: sub, OffPx: [2]int64{ax, ay}}
 }
 
